@@ -336,3 +336,24 @@ Example C03_regex_inverts_printer_table_nonvacuous :
   set_gen_expr (B "cx") w_tab_full_text = GenOk (B "(a + 1)") /\
   autoinc w_tab_full_text (map c_name (t_cols (x_t w_tab_full))) [B "id"] = AutoOk (B "id").
 Proof. split; [exact w_tab_full_print|vm_compute; split; reflexivity]. Qed.
+
+(** 2h. the partial-index predicate composed over the tied printer ([print_index] = addIndexes after
+    normalizeIdxName): for every index with a trimmed, non-empty predicate [p], if the upper-case letters
+    WHERE do not occur in the statement before the keyword ([index_head]: CREATE [UNIQUE] INDEX `name` ON
+    `table` (parts)), the inspector reads back exactly [p].  3d is the failure without the premise. *)
+Theorem C03_regex_inverts_printer_predicate_index_except :
+  forall t i0 i p txt,
+  normalize_idx_name i0 t = Some i -> i_pred i = Some p -> p <> [] -> ExportModel.trim_space p = p ->
+  is_go_space (last_byte p) = false ->
+  occurs_cs K_WHERE (index_head t i) = false ->
+  print_index t i0 = Some txt -> index_predicate txt = Some p.
+Proof. exact index_predicate_print_index. Qed.
+Print Assumptions C03_regex_inverts_printer_predicate_index_except.
+
+Example C03_regex_inverts_printer_predicate_index_nonvacuous :
+  let i := mkIndex (B "i1") true [mkPart 1 true (Some (B "a")) None; mkPart 2 false None (Some (B "(a + 1)"))] (Some (B "a > 0")) None None in
+  let t := x_t w_tab_full in
+  print_index t i = Some (B "CREATE UNIQUE INDEX `i1` ON `t` (`a` DESC, (a + 1)) WHERE a > 0") /\
+  occurs_cs K_WHERE (index_head t i) = false /\
+  index_predicate (B "CREATE UNIQUE INDEX `i1` ON `t` (`a` DESC, (a + 1)) WHERE a > 0") = Some (B "a > 0").
+Proof. vm_compute. repeat split; reflexivity. Qed.
